@@ -94,6 +94,7 @@ type Sim struct {
 	Cur     *BeginArgs // header of the block in execution
 	PendingEvidence []rtypes.Address // scenario: evidence to inject into the next block
 	PendingCheck    []func() []byte  // scenario: transactions to CheckTx (never delivered)
+	ForceScenario   int              // scenario to run at the next scenario slot (second phase of a template)
 	VoteAll         bool             // scenario: every validator votes on the latest proposal when its window opens
 	Restarted bool // a restart happened since the last EndBlock
 	EverRestarted bool
